@@ -45,7 +45,8 @@ class DCheck:
                 rch = Choices(ch.seed, replay=[])
                 rs = lambda ex: self.setup(ex, rch, {"reference": True})  # noqa: E731
             ref = run_exec(prog, knobs, Choices(ch.seed, replay=[]), DOpts(), setup=rs, max_steps=4000)
-        budget = (12 * ref["steps"] + 100 if ref else getattr(self, "free_budget", 1500)) + 3 * knobs.max_stage_wait_retries
+        budget = ((12 * ref["steps"] + 100 if ref else getattr(self, "free_budget", 1500)) + 3 * knobs.max_stage_wait_retries
+                  + int(getattr(self, "extra_budget", 0)))
         if ref is not None:
             info["ref_steps"] = ref["steps"]
         st = None
@@ -63,7 +64,7 @@ class DCheck:
             knobs.peer_emulation = bool(ch.pick("k.peer", 2))
             info["engine"] = "W"
             extra = self.w_extra(ch, info) if self.w_extra else None
-            run = run_w(prog, knobs, ch, nworkers=2 + ch.pick("w.n", 2), strategy=ch.choice("w.strategy", ["random", "pct", "random"]),
+            run = run_w(prog, knobs, ch, nworkers=2 + ch.pick("w.n", 2), strategy=ch.choice("w.strategy", ["random", "pct", "random", "stall"]),
                         pct_depth=1 + ch.pick("w.depth", 3), extra_workers=extra)
             if run["errors"]:
                 raise RuntimeError("worker error in engine W: " + run["errors"][0])
